@@ -1,4 +1,5 @@
 import PicoProofs.EndToEnd
+import PicoProofs.VarintNonMinimal
 import PicoProofs.SpecPerm
 import PicoProofs.GoTieApi
 import PicoProofs.Tie
@@ -64,6 +65,36 @@ theorem C02_source_order_independent (S : Schema) (hS : S.supported = true) (id 
     rw [heq] at hs
     rw [hs] at hs'
     exact Option.some.inj hs'
+
+/-- "a sub-message split into several occurrences": a record of a singular message field (or message
+oneof member) with payload `a ++ b`, `a` a complete sequence of records, has the effect of the record
+with payload `a` followed by the record with payload `b` -/
+theorem C02_submessage_split (S : Schema) (id : Nat) (m : Val) (hw : Spec.Perm.Wide S id m) (i : Nat) (f : Field) (sub : Nat)
+    (r ra rb : Spec.Record) (hnum : Spec.findField (S.msg id).fields r.num = some (i, f))
+    (hna : ra.num = r.num) (hnb : rb.num = r.num)
+    (hk : f.kind = .message sub) (hcat : ¬ (f.cat == 1 ∨ f.cat == 2)) (hrep : f.repeated = false)
+    (hwr : r.wire = 2) (hwa : ra.wire = 2) (hwb : rb.wire = 2)
+    (hp : r.payload = ra.payload ++ rb.payload) (n : Nat) (rs : List Spec.Record) (hrs : Spec.records n ra.payload = some rs) :
+    Spec.stepU S id r m = (Spec.stepU S id ra m).bind (Spec.stepU S id rb) :=
+  Spec.Perm.stepU_split S id m hw i f sub r ra rb hnum hna hnb hk hcat hrep hwr hwa hwb hp n rs hrs
+
+/-- "repeated scalars packed, unpacked or mixed": a packed record has the effect of the unpacked
+records carrying its elements one by one (so any mixture of the two forms decodes alike) -/
+theorem C02_packed_equals_unpacked (S : Schema) (f : Field) (k : Scalar) (hk : f.kind = .scalar k)
+    (hrep : f.repeated = true) (hnb : k.isBytes = false) (hw2 : k.wire ≠ 2)
+    (r : Spec.Record) (hw : r.wire = 2) (xs : List Enc.SVal)
+    (hun : Spec.unpack k (r.payload.length + 1) r.payload = some xs)
+    (es : List Spec.Record) (hes : es.map (fun e => (e.wire, e.scalar k)) = xs.map (fun x => (k.wire, some x)))
+    (cur : Val) (hcur : ∃ l, cur = .list l) :
+    Spec.applyU S f r cur = Spec.Perm.foldApply S f es cur :=
+  Spec.Perm.applyU_packed_eq_unpacked S f k hk hrep hnb hw2 r hw xs hun es hes cur hcur
+
+/-- "non-minimal varints": a varint padded with `k` continuation bytes (within ten bytes) is read as
+the same number — tags, values, length prefixes and packed elements alike go through `ConsumeVarint` -/
+theorem C02_nonminimal_varint (v k : Nat) (hv : v < 2 ^ 64) (hk : 1 ≤ k) (hl : (Wire.varint v).length + k ≤ 10)
+    (rest : Bytes) :
+    Wire.consumeVarint (Wire.nonMinimal v k ++ rest) = (v, (((Wire.varint v).length + k : Nat) : Int)) :=
+  Wire.consumeVarint_nonMinimal v k hv hk hl rest
 
 /-- non-vacuity: two records of different fields may be exchanged -/
 example : Spec.Perm.PermI [⟨[⟨1, .scalar .int32, 0, 0, false, 0⟩, ⟨2, .scalar .string, 0, 0, false, 0⟩], false, false⟩] 0
